@@ -88,7 +88,7 @@ def cases(rng, tier, shard, nshards):
             dt, goods, bads = rng.choice([("i", [5, -3], ["a", 1.5, [1]]), ("f", [2.5], ["x", [1]]), ("Z", ["abc"], ["a\tb", 5]),
                                           ("J", [[1], {"a": 2}], ["x\ty"]), ("A", ["q"], ["ab", 7])])
             valid = rng.random() < 0.5
-            yield {"k": "header-add", "dt": dt, "start": rng.choice([1, 2]), "value": rng.choice(goods if valid else bads),
+            yield {"k": "header-add", "dt": dt, "start": rng.choice([0, 1, 2]), "value": rng.choice(goods if valid else bads),
                    "seed_values": goods, "valid": valid, "explicit": rng.random() < 0.6, "vlevel": rng.randrange(4),
                    "connected": rng.random() < 0.5}
         elif r < 0.62:
@@ -168,6 +168,8 @@ def run_header_add(case, ctx):
         if not r0.ok:
             return
     value = case["value"]
+    if case["start"] == 0:
+        case = dict(case, explicit=True)        # (a new tag: the datatype is the one given)
     cell = "header.add('xx', %r%s) after %d value(s) of datatype %s (level %d, %s)" % (
         value, ", %r" % dt if case["explicit"] else "", case["start"], dt, lvl, "Gfa header" if case["connected"] else "stand-alone H line")
     r = call(ctx, "header.add", (lambda: h.add("xx", value, dt)) if case["explicit"] else (lambda: h.add("xx", value)))
@@ -190,6 +192,20 @@ def run_header_add(case, ctx):
         return
     if not r.ok:
         ctx.count("invalid_refused_at_assignment")
+        if case["start"] == 0:
+            # the tag does not exist: a valid value of another class is then accepted with its own
+            # default datatype, as if the refused call had not been made
+            v2, dt2 = ("hello", "Z") if dt != "Z" else (12, "i")
+            r2 = call(ctx, "header.add (valid, after a refused one)", h.add, "xx", v2)
+            ctx.count("header_add_valid_after_refused")
+            if not r2.ok:
+                ctx.violation("valid-assignment-refused/header-add-after-refused/level%d/%s" % (lvl, r2.cls()),
+                              "%s was refused; then header.add('xx', %r) is refused too: %s" % (cell, v2, str(r2.exc)[:200]))
+                return
+            d2 = call(ctx, "get_datatype", h.get_datatype, "xx")
+            if not d2.ok or d2.value != dt2:
+                ctx.violation("stale-datatype/header-add/%s-as-%s" % (dt2, d2.value if d2.ok else d2.cls()),
+                              "%s was refused; then header.add('xx', %r) got datatype %r" % (cell, v2, d2.value if d2.ok else None))
         return
     vl = call(ctx, "validate", h.validate)
     ctx.count("invalid_validated")
@@ -302,7 +318,7 @@ def run_assign(case, ctx):
         line = gfapy.Line(text, vlevel=lvl, **({"version": version} if version else {}))
     cell = "%s.%s=%r (level %d, %s%s)" % (text.split("\t")[0], field, value, lvl, case["how"], ", line created by a Gfa" if connected else "")
 
-    if isinstance(value, str) and value.startswith("@"):
+    if isinstance(value, str) and value.startswith("@") and value[1:].split(":")[0] in ("cigar1", "cigar2", "trace"):
         # a value object instead of its text
         what, txt = value[1:].split(":", 1)
         value = {"cigar1": lambda: gfapy.Alignment(txt, version="gfa1"), "cigar2": lambda: gfapy.Alignment(txt, version="gfa2"),
